@@ -2,30 +2,56 @@ package exec
 
 import (
 	"go/types"
+	"time"
 
 	"golang.org/x/tools/go/ssa"
+	"symgo/smt"
 )
 
 var typesString = types.Typ[types.String]
 
 func typesPointer(t types.Type) types.Type { return types.NewPointer(t) }
 
-
-type fsModel struct {
-	crashAt int
-	armed   bool
+func (e *Engine) timeZero() Value {
+	tp := e.Prog.ImportedPackage("time")
+	return zero(tp.Type("Time").Object().Type())
 }
 
-func (e *Engine) fs() *fsModel {
-	if e.fsys == nil {
-		e.fsys = &fsModel{crashAt: -1}
+func registerTime(m map[string]modelFn) {
+	m["time.Now"] = func(fr *frame, a []Value) Value {
+		fr.e.Assumptions["time.Now: a fixed instant (the value of the clock is not part of any claim)"] = true
+		return fr.e.timeZero()
 	}
-	return e.fsys
+	m["(time.Time).UTC"] = func(fr *frame, a []Value) Value { return a[0] }
+	m["(time.Time).Local"] = func(fr *frame, a []Value) Value { return a[0] }
+	m["(time.Time).Format"] = func(fr *frame, a []Value) Value {
+		layout := fr.e.concStr(a[1], "layout")
+		return mkStr(time.Date(2000, 1, 1, 0, 0, 0, 0, time.UTC).Format(layout))
+	}
+	m["(time.Time).IsZero"] = func(fr *frame, a []Value) Value { return smt.True }
+	m["(time.Time).Unix"] = func(fr *frame, a []Value) Value { return intC(946684800) }
+	m["(time.Time).UnixNano"] = func(fr *frame, a []Value) Value { return intC(946684800000000000) }
+	m["time.Parse"] = func(fr *frame, a []Value) Value {
+		e := fr.e
+		layout := e.concStr(a[0], "layout")
+		v, ok := a[1].(Str).Concrete()
+		if !ok {
+			e.unsupported("time.Parse of a symbolic string")
+		}
+		if _, err := time.Parse(layout, v); err != nil {
+			return Tuple{e.timeZero(), e.mkError(mkStr(err.Error()), nil)}
+		}
+		return Tuple{e.timeZero(), Iface{}}
+	}
+	m["time.Since"] = func(fr *frame, a []Value) Value { return intC(0) }
+	m["time.Sleep"] = func(fr *frame, a []Value) Value { fr.e.yield(); return nil }
 }
-func (f *fsModel) tempDir() string      { return "/tmp/verif" }
-func (f *fsModel) armCrash(e *Engine)   {}
-func registerFS(m map[string]modelFn)   {}
-func registerTime(m map[string]modelFn) {}
 
-func (e *Engine) setupOSGlobals(pkg *ssa.Package)   {}
-func (e *Engine) setupTimeGlobals(pkg *ssa.Package) {}
+func (e *Engine) setupTimeGlobals(pkg *ssa.Package) {
+	// time.UTC / time.Local are pointers to Location values; interpreted code rarely needs them
+	for _, n := range []string{"UTC", "Local"} {
+		if g := pkg.Var(n); g != nil {
+			e.okGlobal(g)
+		}
+	}
+}
